@@ -36,6 +36,7 @@ func invariantBreach(tree interface{}) string {
 	default:
 		return ""
 	}
+	targets := 0
 	var walk func(v interface{}, path string) string
 	walk = func(v interface{}, path string) string {
 		arr, ok := v.([]interface{})
@@ -48,6 +49,9 @@ func invariantBreach(tree interface{}) string {
 				continue
 			}
 			p := fmt.Sprintf("%s[%d]", path, i)
+			if t, _ := d["is_target"].(bool); t {
+				targets++
+			}
 			mn, mx := defMin, defMax
 			okNum := true
 			if n, has := d["min"]; has {
@@ -78,5 +82,11 @@ func invariantBreach(tree interface{}) string {
 		}
 		return ""
 	}
-	return walk(fd[top], top)
+	if b := walk(fd[top], top); b != "" {
+		return b
+	}
+	if targets > 1 {
+		return fmt.Sprintf("%d declarations are marked is_target (the readers rely on exactly one)", targets)
+	}
+	return ""
 }
